@@ -33,20 +33,21 @@ def model_db():
 
 
 class BleWorld:
-    def __init__(self, loop, k=0, acc_id="AA:BB:CC:DD:EE:FF", ios_id="ios-ble-controller", att_payload=155):
+    def __init__(self, loop, k=0, acc_id="AA:BB:CC:DD:EE:FF", ios_id="ios-ble-controller", att_payload=155, cache=None):
         self.loop = loop
         seed = refhap.H(b"bleworld", str(k).encode())
         self.ident = RefIdentity(acc_id.encode(), seed[:32])
         self.ios_seed = seed[32:64]
         self.ios_ltpk = ed_pub(ed_from_seed(self.ios_seed))
         self.ident.controllers[ios_id.encode()] = self.ios_ltpk
-        chars = {iid: {"uuid": char_uuid(iid), "format": fmt, "value": (struct.pack(code, 0) if code else b"")} for iid, (fmt, code, perms) in FORMATS.items()}
+        chars = {iid: {"uuid": char_uuid(iid), "format": fmt, "perms": list(perms), "value": (struct.pack(code, 0) if code else b"")} for iid, (fmt, code, perms) in FORMATS.items()}
         self.acc = RefBleAccessory(self.ident, chars)
         self.att_payload = att_payload
         self.clients = []
         self.connect_fail = 0
-        cache = CharacteristicCacheMemory()
-        cache.async_create_or_update_map(acc_id, 1, model_db(), None, 1)
+        if cache is None:             # (a caller that brings its own cache decides what it holds)
+            cache = CharacteristicCacheMemory()
+            cache.async_create_or_update_map(acc_id, 1, model_db(), None, 1)
         self.controller = BleController(char_cache=cache)
         self.pairing_data = {"AccessoryPairingID": acc_id, "AccessoryLTPK": self.ident.ltpk.hex(), "iOSPairingId": ios_id, "iOSDeviceLTSK": self.ios_seed.hex(),
                              "iOSDeviceLTPK": self.ios_ltpk.hex(), "AccessoryAddress": "00:11:22:33:44:55", "Connection": "BLE"}
